@@ -895,6 +895,45 @@ def s17(ctx, rid):
         raise core.AnchorLost('updates of synced_size: %d' % n)
 
 
+def s18(ctx, rid):
+    """dirty bytes are counted exactly: `File::dirty_bytes` is the difference of the written and the synced counter - no
+    rounding, scaling or masking (division, multiplication, remainder, shift, bit-and).  Counted in blocks, up to a block of
+    acknowledged bytes at the end of the blob is invisible to the trigger, and with a small limit nothing ever triggers"""
+    prog = ctx.prog
+    n = 0
+    for f in prog.fns.values():
+        if not f.file.startswith('src/io/') or prog.fns[f.id].root.rsplit('::', 1)[-1] != 'dirty_bytes' or f.kind == 'Closure':
+            continue
+        if not any(c.name in ('load', 'synced_size', 'written_size', 'size') for c in f.calls):
+            continue      # a forwarding wrapper
+        n += 1
+        key = 'dirty-bytes-exact|%s' % f.id
+        ops = set()
+        seen = set()
+
+        def walk(o, d=8):
+            if d <= 0:
+                return
+            for og in core.origins(f, o, stop_fields=True):
+                if og.kind in ('binop', 'unop'):
+                    k = (og.bb, id(og.data))
+                    if k in seen:
+                        continue
+                    seen.add(k)
+                    ops.add(og.data.get('op', ''))
+                    for side in ('a', 'b', 'o'):
+                        if side in og.data:
+                            walk(og.data[side], d - 1)
+        walk(0)
+        odd = sorted(x for x in ops if not x.startswith('Sub'))
+        if odd:
+            ctx.bad(rid, key, f.where(), 'the dirty-byte count is not the plain difference of the two counters (operations: %s): part of the acknowledged bytes is invisible to the sync trigger' % ', '.join(odd))
+        else:
+            ctx.ok(rid, key, f.where(), 'written - synced (operations: %s)' % (', '.join(sorted(ops)) or 'saturating_sub'))
+    if n < 1:
+        raise core.AnchorLost('File::dirty_bytes: %d' % n)
+
+
 RULES = [
     Rule('C12.S1', 'every ok-return of the blob constructor is preceded by the header append and then a completed ok file sync', s1, 2),
     Rule('C12.S2', 'every index dump / index-file construction call is dominated by an ok sync of the blob file (in the function or in every caller)', s2, 2),
@@ -903,6 +942,7 @@ RULES = [
     Rule('C12.S4', 'every ok-return of the public fsyncdata on which an active blob exists is preceded by an ok file sync', s4, 1),
     Rule('C12.S5', 'every append to the active blob feeds the dirty-byte check (on every path to the ok-return in the write path); every check controls a sync request on its true edge; the worker handler reaches a sync', s5, 5),
     Rule('C12.S17', 'the size recorded as synced counts written bytes only, not reservations of appends in flight', s17, 1),
+    Rule('C12.S18', 'dirty bytes are the exact difference of the written and the synced counter', s18, 1),
     Rule('C12.S6', 'the synced-size counter is only advanced by fetch_max after an ok sync_all, with a size captured before the sync', s6, 2),
     Rule('C12.S7', 'in index construction the written-flag rewrite follows the ok body append and is followed by an ok sync', s7, 1),
     Rule('C12.S9', 'sync requests to the worker are sent with the waiting send, never dropped when the queue is full (C13.L9 instances)', s9, 1),
